@@ -586,8 +586,8 @@ impl SdExec {
         let cur = &self.cur;
         let items: Vec<String> = cur.r.iter().map(|x| x.to_string()).collect();
         let res = catch_unwind(AssertUnwindSafe(|| {
-            let a = its::run_both("C15", "vec: iter() of the Deref slice against the reference deque", &steps, script, its::double_ended(cur.v.iter(), |x: &u32| x.to_string()), items.clone(), true);
-            let b = its::run_both("C15", "smallvec: iter() of the Deref slice against the reference deque", &steps, script, its::double_ended(cur.s.iter(), |x: &u32| x.to_string()), items.clone(), true);
+            let a = its::run_both("C15", "vec: iter() of the Deref slice against the reference deque", &steps, script, its::double_ended(cur.v.iter(), |x: &u32| x.to_string(), its::cap_for(items.len())), items.clone(), true);
+            let b = its::run_both("C15", "smallvec: iter() of the Deref slice against the reference deque", &steps, script, its::double_ended(cur.s.iter(), |x: &u32| x.to_string(), its::cap_for(items.len())), items.clone(), true);
             (a, b)
         }));
         match res {
